@@ -22,7 +22,7 @@ FirstStop == IF Stops = {} THEN N + 1 ELSE CHOOSE k \in Stops : \A j \in Stops :
 RespEvents == {k \in 1..N : Act(k) \in {"piggy", "sep"} /\ WaitingBefore(k)}
 FirstResp == IF RespEvents = {} THEN 0 ELSE CHOOSE k \in RespEvents : \A j \in RespEvents : k <= j
 Acked == \E k \in 1..N : Act(k) \in {"ack", "piggy"} /\ EntryBefore(k) /\ WaitingBefore(k)
-Exhausted(k) == \E j \in 1..k : Act(j) = "tick" /\ EntryBefore(j) /\ ~Ev[j].entry
+Exhausted(k) == \E j \in 1..k : Act(j) \in {"tick", "tickfail"} /\ EntryBefore(j) /\ ~Ev[j].entry
 PayOf(k) == IF Act(k) = "piggy" THEN <<80>> ELSE <<83>>        \* "P" / "S"
 FinalRet == T.final.ret
 
@@ -49,6 +49,9 @@ C06_NoFalseSuccess == J => \A k \in 1..N : Ev[k].ret = "ok" =>
 \* returns the error, so "no copy after ... the return of the call" - no later sweep sends anything for it - and the
 \* connection's next request is transmitted (the exchange gave back what it held)
 C06_FailedWriteSilent == (J /\ T.wfail) => (Len(C) = 0 /\ FinalRet = "err" /\ ~T.final.entry /\ T.nextSent)
+\* a copy that cannot be written (event tickfail: a transient error of the network) spends an attempt and nothing else: while
+\* attempts remain the exchange stays open - later copies go out, the answer still completes the call (C06_Success)
+C06_FailedCopyKeepsExchange == J => \A k \in 1..N : (Act(k) = "tickfail" /\ EntryBefore(k) /\ WaitingBefore(k) /\ Ev[k].copies + k <= T.maxr + 1) => Ev[k].entry
 \* the housekeeping sweep that retransmits and gives up always returns
 C06_SweepReturns == (ph = 1) => ~T.sweepHung
 C06_NoFalseSuccessEnd == J => (FinalRet = "ok" => FirstResp # 0)
